@@ -256,6 +256,10 @@ def run(ctx, n=None, compare=True, hashseeds=None, n_exact=None):
             if out.strip() != impl_s.strip():
                 ctx.disagreements.append({"line": line, "impl": impl_s, "model": out.strip(), "case": case.to_json(), "cfg": ruleprops.cfg_json(cfg)})
             ctx.sample(f"{line} -> impl (all presentations): {impl_s} | model: {out.strip()}")
+    # the names of the projects are labels: numbered 1 … 13 against '01' … '13' (round 7, drawn last)
+    from .. import relabel
+
+    relabel.run(ctx, min(3000, max(300, n // 4)))
 
 
 def search(ctx, disagreements):
@@ -263,6 +267,10 @@ def search(ctx, disagreements):
 
 
 def replay(payload):
+    if payload.get("cfg", {}).get("relabel"):
+        from .. import relabel
+
+        return relabel.replay(payload)
     case = Case.from_json(payload["case"])
     cfg = ruleprops.cfg_from_json(payload["cfg"])
     exp = payload.get("expected")
